@@ -19,7 +19,13 @@ fn case(rng: &mut Rng, idx: u64, rec: &mut Rec) {
     let n = pick_n(rng, idx);
     let use_call = rng.chance(1, 4);
     // sender variants: explicit Host, despite-method GET, and (one case in four) the Expect routes
-    let variant = rng.below(4) as u8 | [0u8, 0, 0, 8, 16, 0, 0, 0][rng.below(8) as usize] | (rng.below(4) as u8) << 5;
+    let mut variant: u16 = rng.below(4) as u16 | [0u16, 0, 0, 8, 16, 0, 0, 0][rng.below(8) as usize] | (rng.below(4) as u16) << 5;
+    // one more head write after completion; an HTTP/1.0 request; a flow produced by a redirect whose
+    // original was chunked (the content-length added in Prepare is this body's own framing)
+    variant |= [0u16, 0, 256, 512, 0, 0, 2048, 0][rng.below(8) as usize];
+    if variant & 2048 != 0 && !use_call {
+        rec.cov("sender-route/redirected-with-own-content-length");
+    }
     rec.cov(&format!("sender-variant/{}", variant & 31));
     if !use_call && variant & 24 != 0 {
         rec.cov(if variant & 8 != 0 { "sender-route/expect-gave-up" } else { "sender-route/expect-got-100" });
@@ -186,6 +192,7 @@ impl Property for P {
             ("finished".into(), 1000),
             ("sender-route/expect-gave-up".into(), 500),
             ("sender-route/expect-got-100".into(), 500),
+            ("sender-route/redirected-with-own-content-length".into(), 500),
         ]
     }
 }
